@@ -99,18 +99,29 @@ class Build:
             lock.close()
         return self
 
+    GENERATED = ["Generated", "GeneratedBehavior", "GeneratedJoin", "GeneratedOps"]
+
     def _extract(self):
+        """regenerate the tables and the translated functions from /repo/src (tools/extract.py writes Wax/Generated*.lean)"""
         t0 = time.time()
-        gen = os.path.join(LEAN, "Wax", "Generated.lean")
-        r = sh([sys.executable, os.path.join(VERIF, "tools", "extract.py"), os.path.join(REPO, "src")])
+        self.previous = {}
+        for n in self.GENERATED:
+            path = os.path.join(LEAN, "Wax", n + ".lean")
+            self.previous[n] = open(path, encoding="utf-8").read() if os.path.exists(path) else ""
+        r = sh([sys.executable, os.path.join(VERIF, "tools", "extract.py"), os.path.join(REPO, "src"), "--dir", os.path.join(LEAN, "Wax")])
         if r.returncode != 0:
-            self.failures.append(("obligation", "tools/extract.py: a table of the source could not be located", (r.stdout + r.stderr)[-400:]))
+            # a table could not be located: the generated files are left as they were
+            self.failures.append(("obligation", "tools/extract.py: a table of the source could not be located", (r.stdout + r.stderr)[-400:], ["Wax.Generated"]))
         else:
-            old = open(gen, encoding="utf-8").read() if os.path.exists(gen) else ""
-            self.previous_tables = old
-            if r.stdout.rstrip("\n") != old.rstrip("\n"):
-                open(gen, "w", encoding="utf-8").write(r.stdout)
-                self.notes.append("Generated.lean differs from the committed tables")
+            try:
+                st = json.loads(r.stdout.strip().split("\n")[-1])
+            except ValueError:
+                st = {"changed": [], "untranslatable": {}}
+            if st.get("changed"):
+                self.notes.append("generated files differ from the committed ones: %s" % ", ".join(st["changed"]))
+            for g, why in sorted(st.get("untranslatable", {}).items()):
+                self.failures.append(("obligation", "tools/rs2lean.py: a function of the source is outside the translatable fragment (%s): the tie by translation of Wax/%s.lean no longer applies" % ("; ".join(why)[:200], g),
+                                      "; ".join(why)[-400:], ["Wax." + g]))
         self.times["extract"] = round(time.time() - t0, 2)
 
     def _harness(self):
@@ -128,18 +139,24 @@ class Build:
             detail = (r.stdout + r.stderr)
             # which module / theorem broke
             broken = re.findall(r"error: (\S+?\.lean):(\d+):\d+: (.*)", detail)
-            self.failures.append(("obligation", "lake build: " + "; ".join("%s:%s %s" % (os.path.basename(a), b, c[:80]) for a, b, c in broken[:4]), detail[-1500:]))
-            # fall back to the previous / committed tables so that the search for a failing input can still run
-            gen = os.path.join(LEAN, "Wax", "Generated.lean")
+            mods = sorted({a[:-5].replace("./", "").replace(os.sep, ".") for a, _b, _c in broken} |
+                          set(re.findall(r"^- (Wax[\w.]*)$", detail, re.M)))
+            self.failures.append(("obligation", "lake build: " + "; ".join("%s:%s %s" % (os.path.basename(a), b, c[:80]) for a, b, c in broken[:4]), detail[-1500:], mods))
+            # fall back to the committed / previous generated files so that the search for a failing input can still run
             candidates = []
-            g = sh(["git", "-C", VERIF, "show", "HEAD:lean/Wax/Generated.lean"])
-            if g.returncode == 0:
-                candidates.append(g.stdout)
-            if getattr(self, "previous_tables", ""):
-                candidates.append(self.previous_tables)
+            committed = {}
+            for n in self.GENERATED:
+                g = sh(["git", "-C", VERIF, "show", "HEAD:lean/Wax/%s.lean" % n])
+                if g.returncode == 0:
+                    committed[n] = g.stdout
+            if len(committed) == len(self.GENERATED):
+                candidates.append(committed)
+            if getattr(self, "previous", None) and all(self.previous.values()):
+                candidates.append(self.previous)
             ok = False
-            for text in candidates:
-                open(gen, "w", encoding="utf-8").write(text)
+            for files in candidates:
+                for n, text in files.items():
+                    open(os.path.join(LEAN, "Wax", n + ".lean"), "w", encoding="utf-8").write(text)
                 r2 = sh(["lake", "build", "Wax", "waxmodel"], cwd=LEAN)
                 if r2.returncode == 0:
                     ok = True
@@ -147,6 +164,27 @@ class Build:
             if not ok:
                 raise BuildFailure("lean", "lake build failed even with the committed tables:\n" + (r.stdout + r.stderr)[-3000:])
         self.times["lake"] = round(time.time() - t0, 2)
+
+
+_IMPORTS = None
+
+
+def import_closure(mods):
+    """the modules of /verif/lean that the given modules import, transitively (themselves included)"""
+    global _IMPORTS
+    if _IMPORTS is None:
+        _IMPORTS = {}
+        for path in lean_sources():
+            name = os.path.relpath(path, LEAN)[:-5].replace(os.sep, ".")
+            _IMPORTS[name] = re.findall(r"^import\s+(\S+)", open(path, encoding="utf-8").read(), re.M)
+    seen, todo = set(), list(mods)
+    while todo:
+        m0 = todo.pop()
+        if m0 in seen:
+            continue
+        seen.add(m0)
+        todo += [x for x in _IMPORTS.get(m0, []) if x.startswith("Wax")]
+    return seen
 
 
 def audit(theorems):
@@ -383,8 +421,14 @@ def proof_step(rep, build, prop):
                              "missing": t.get("missing", ""), "checked": t["name"] in okn})
     for t, why in bad:
         rep.violation("obligation", "theorem %s: %s" % (t, why), {"theorem": t})
-    for kind, name, detail in build.failures:
-        rep.violation("obligation", name, {"detail": detail[-600:]})
+    # a failure of the build or of the regeneration concerns this property when a module that failed is one the property's
+    # theorems are stated in or depend on (the model itself included); other properties only note it
+    mine = import_closure(theorem_modules([t["name"] for t in ths]) + ["Main"])
+    for kind, name, detail, mods in build.failures:
+        if not mods or set(mods) & mine:
+            rep.violation("obligation", name, {"detail": detail[-600:], "modules": mods})
+        else:
+            build.notes.append("not this property's obligation: %s (%s)" % (name[:160], ", ".join(mods)))
     if rep.tier == "thorough" and not build.failures:
         mods = theorem_modules([t["name"] for t in ths])
         ok_lc, out_lc, secs = leanchecker(mods)
